@@ -12,7 +12,8 @@
    sin/cos are over Coq's R and depend on the standard library's real-number axioms only. *)
 From Coq Require Import ZArith Reals Lra List Bool.
 From PF Require Import Geom.Vec Geom.AlgebraSpec Geom.AlgebraInst Geom.AlgebraMatProofs Geom.AlgebraMatInvProofs
-  Geom.AlgebraQuatProofs Geom.AlgebraQuatRProofs Geom.AlgebraTrsProofs Geom.AlgebraArrayProofs Geom.AlgebraAabbProofs.
+  Geom.AlgebraQuatProofs Geom.AlgebraQuatRProofs Geom.AlgebraTrsProofs Geom.AlgebraArrayProofs Geom.AlgebraAabbProofs
+  Geom.AlgebraMoreProofs.
 From PFGen Require Mat Quat Trs Aabb.
 Local Open Scope nat_scope.
 
@@ -260,6 +261,157 @@ Theorem closest_is_nearest : forall (b : Aabb.AABB R) (v q : vec3 R),
 Proof. exact AlgebraAabbProofs.closest_is_nearest. Qed.
 Print Assumptions closest_is_nearest.
 
+(* ======================================================================== round 4: compositions and the remaining methods *)
+(* the inverse is unique, involutive and anti-multiplicative; det (Inverse a) * det a = 1 *)
+Theorem inverse_unique : forall F (FO : Carrier F), field_carrier FO -> forall a b : Mat.Matrix4x4 F,
+  Mat.Matrix4x4_Determinant a <> c0 -> Mat.Matrix4x4_Multiply b a = Mat.Identity -> b = Mat.Matrix4x4_Inverse a.
+Proof. exact @AlgebraMatInvProofs.inverse_unique. Qed.
+Print Assumptions inverse_unique.
+
+Theorem inverse_involutive : forall F (FO : Carrier F), field_carrier FO -> forall a : Mat.Matrix4x4 F,
+  Mat.Matrix4x4_Determinant a <> c0 -> Mat.Matrix4x4_Inverse (Mat.Matrix4x4_Inverse a) = a.
+Proof. exact @AlgebraMoreProofs.inverse_involutive. Qed.
+Print Assumptions inverse_involutive.
+
+Theorem inverse_mul : forall F (FO : Carrier F), field_carrier FO -> forall a b : Mat.Matrix4x4 F,
+  Mat.Matrix4x4_Determinant a <> c0 -> Mat.Matrix4x4_Determinant b <> c0 ->
+  Mat.Matrix4x4_Inverse (Mat.Matrix4x4_Multiply a b) = Mat.Matrix4x4_Multiply (Mat.Matrix4x4_Inverse b) (Mat.Matrix4x4_Inverse a).
+Proof. exact @AlgebraMoreProofs.inverse_mul. Qed.
+Print Assumptions inverse_mul.
+
+Theorem determinant_inverse : forall F (FO : Carrier F), field_carrier FO -> forall a : Mat.Matrix4x4 F,
+  Mat.Matrix4x4_Determinant a <> c0 ->
+  (Mat.Matrix4x4_Determinant (Mat.Matrix4x4_Inverse a) * Mat.Matrix4x4_Determinant a)%C = c1.
+Proof. exact @AlgebraMoreProofs.determinant_inverse. Qed.
+Print Assumptions determinant_inverse.
+
+(* end to end: an invertible affine matrix and its Inverse undo each other on points *)
+Theorem mulposition_inverse : forall F (FO : Carrier F), field_carrier FO -> forall (a : Mat.Matrix4x4 F) v,
+  affine a -> Mat.Matrix4x4_Determinant a <> c0 ->
+  Mat.Matrix4x4_MulPosition (Mat.Matrix4x4_Inverse a) (Mat.Matrix4x4_MulPosition a v) = v.
+Proof. exact @AlgebraMoreProofs.mulposition_inverse. Qed.
+Print Assumptions mulposition_inverse.
+
+(* Multiply is bilinear over Add — which is why the 16 x 16 pairs of basis matrices decide it for all inputs *)
+Theorem mul_bilinear : forall F (FO : Carrier F), ring_carrier FO -> forall a b c : Mat.Matrix4x4 F,
+  Mat.Matrix4x4_Multiply a (Mat.Matrix4x4_Add b c) =
+    Mat.Matrix4x4_Add (Mat.Matrix4x4_Multiply a b) (Mat.Matrix4x4_Multiply a c) /\
+  Mat.Matrix4x4_Multiply (Mat.Matrix4x4_Add a b) c =
+    Mat.Matrix4x4_Add (Mat.Matrix4x4_Multiply a c) (Mat.Matrix4x4_Multiply b c).
+Proof. exact @AlgebraMoreProofs.mul_bilinear. Qed.
+Print Assumptions mul_bilinear.
+
+Theorem mul_homogeneous : forall F (FO : Carrier F), ring_carrier FO -> forall (s : F) (a b : Mat.Matrix4x4 F),
+  Mat.Matrix4x4_Multiply (mat_scale s a) b = mat_scale s (Mat.Matrix4x4_Multiply a b) /\
+  Mat.Matrix4x4_Multiply a (mat_scale s b) = mat_scale s (Mat.Matrix4x4_Multiply a b).
+Proof. exact @AlgebraMoreProofs.mul_homogeneous. Qed.
+Print Assumptions mul_homogeneous.
+
+(* MatFromDirs: an affine frame with origin [off] and y axis [up] *)
+Theorem matfromdirs_frame : forall F (FO : Carrier F), ring_carrier FO -> forall up fwd off : vec3 F,
+  let m := Mat.MatFromDirs up fwd off in
+  affine m /\ Mat.Matrix4x4_MulPosition m v3_zero = off /\ Mat.Matrix4x4_MulPosition m v3_up = v3_add off up.
+Proof. exact @AlgebraMoreProofs.matfromdirs_frame. Qed.
+Print Assumptions matfromdirs_frame.
+
+(* quaternions: associative product with unit Identity and multiplicative norm; Identity rotates nothing *)
+Theorem quat_monoid : forall F (FO : Carrier F), ring_carrier FO -> forall (p q r : Quat.Quaternion F) v,
+  Quat.Quaternion_Multiply (Quat.Quaternion_Multiply p q) r = Quat.Quaternion_Multiply p (Quat.Quaternion_Multiply q r) /\
+  Quat.Quaternion_Multiply Quat.Identity q = q /\ Quat.Quaternion_Multiply q Quat.Identity = q /\
+  qnorm2 (Quat.Quaternion_Multiply p q) = (qnorm2 p * qnorm2 q)%C /\
+  Quat.Quaternion_Rotate Quat.Identity v = v.
+Proof. exact @AlgebraMoreProofs.quat_monoid. Qed.
+Print Assumptions quat_monoid.
+
+(* the conjugate of a unit quaternion undoes its rotation (in general: up to the factor (|q|^2)^2) *)
+Theorem rot_conj_inverse : forall F (FO : Carrier F), ring_carrier FO -> forall (q : Quat.Quaternion F) v,
+  Quat.Quaternion_Rotate (qconj q) (Quat.Quaternion_Rotate q v) = v3_scale v (qnorm2 q * qnorm2 q)%C.
+Proof. exact @AlgebraMoreProofs.rot_conj_inverse. Qed.
+Print Assumptions rot_conj_inverse.
+
+Theorem trs_identity : forall F (FO : Carrier F), ring_carrier FO -> forall v : vec3 F,
+  Trs.TRS_Transform (Trs.New v3_zero Quat.Identity v3_one) v = v.
+Proof. exact @AlgebraMoreProofs.trs_identity. Qed.
+Print Assumptions trs_identity.
+
+(* the array-level entry points distribute over concatenation: processing in chunks of any sizes is the same *)
+Theorem array_chunks : forall F (FO : Carrier F), ring_carrier FO ->
+  forall (t : Trs.TRS F) (q : Quat.Quaternion F) (xs ys : list (vec3 F)),
+  Trs.TRS_TransformArray t (xs ++ ys) = Trs.TRS_TransformArray t xs ++ Trs.TRS_TransformArray t ys /\
+  Trs.TRS_TransformInPlace t (xs ++ ys) = Trs.TRS_TransformInPlace t xs ++ Trs.TRS_TransformInPlace t ys /\
+  Quat.Quaternion_RotateArray q (xs ++ ys) = Quat.Quaternion_RotateArray q xs ++ Quat.Quaternion_RotateArray q ys.
+Proof. exact @AlgebraMoreProofs.array_chunks. Qed.
+Print Assumptions array_chunks.
+
+(* Normalize yields unit quaternions; RotationTo returns a unit quaternion in EVERY branch, so the rotation it
+   returns preserves the length of every vector (end to end: RotationTo -> Normalize / FromTheta -> Rotate) *)
+Theorem normalize_unit : forall q : Quat.Quaternion R, (0 < qnorm2 q)%R -> qnorm2 (Quat.Quaternion_Normalize q) = 1%R.
+Proof. exact AlgebraMoreProofs.normalize_unit. Qed.
+Print Assumptions normalize_unit.
+
+Theorem rotation_to_unit : forall a b : vec3 R, v3_dot a a = 1%R -> v3_dot b b = 1%R -> qnorm2 (Quat.RotationTo a b) = 1%R.
+Proof. exact AlgebraMoreProofs.rotation_to_unit. Qed.
+Print Assumptions rotation_to_unit.
+
+Theorem rotation_to_isometry : forall a b v : vec3 R, v3_dot a a = 1%R -> v3_dot b b = 1%R ->
+  v3_length (Quat.Quaternion_Rotate (Quat.RotationTo a b) v) = v3_length v.
+Proof. exact AlgebraMoreProofs.rotation_to_isometry. Qed.
+Print Assumptions rotation_to_isometry.
+
+Theorem from_theta_isometry : forall (theta : R) (axis v : vec3 R), (0 < v3_dot axis axis)%R ->
+  v3_length (Quat.Quaternion_Rotate (Quat.FromTheta theta axis) v) = v3_length v.
+Proof. exact AlgebraMoreProofs.from_theta_isometry. Qed.
+Print Assumptions from_theta_isometry.
+
+(* boxes: the grown box is EXACTLY [min(lo,p), max(hi,p)], and unchanged when the point was already inside *)
+Theorem encapsulate_point_bounds : forall (b : Aabb.AABB R) (p : vec3 R),
+  box_lo (Aabb.AABB_EncapsulatePoint b p) = v3_min (box_lo b) p /\
+  box_hi (Aabb.AABB_EncapsulatePoint b p) = v3_max (box_hi b) p.
+Proof. exact AlgebraAabbProofs.encapsulate_point_bounds. Qed.
+Print Assumptions encapsulate_point_bounds.
+
+Theorem encapsulate_inside : forall (b : Aabb.AABB R) (p : vec3 R), Aabb.AABB_Contains b p = true ->
+  box_lo (Aabb.AABB_EncapsulatePoint b p) = box_lo b /\ box_hi (Aabb.AABB_EncapsulatePoint b p) = box_hi b.
+Proof. exact AlgebraMoreProofs.encapsulate_inside. Qed.
+Print Assumptions encapsulate_inside.
+
+(* ClosestPoint of a point of the box is the point itself *)
+Theorem closest_fixed : forall (b : Aabb.AABB R) (v : vec3 R),
+  Aabb.AABB_Contains b v = true -> Aabb.AABB_ClosestPoint b v = v.
+Proof. exact AlgebraAabbProofs.closest_fixed. Qed.
+Print Assumptions closest_fixed.
+
+(* Intersects <-> the two (non-empty, closed) boxes have a common point *)
+Theorem intersects_iff : forall a b : Aabb.AABB R, nonneg_box a -> nonneg_box b ->
+  (Aabb.AABB_Intersects a b = true <-> exists p, Aabb.AABB_Contains a p = true /\ Aabb.AABB_Contains b p = true).
+Proof. exact AlgebraMoreProofs.intersects_iff. Qed.
+Print Assumptions intersects_iff.
+
+Theorem expand_contains : forall (b : Aabb.AABB R) (amount : R) (q : vec3 R), (0 <= amount)%R ->
+  Aabb.AABB_center (Aabb.AABB_Expand b amount) = Aabb.AABB_center b /\
+  box_hi (Aabb.AABB_Expand b amount) = v3_add (box_hi b) (mkV3 (amount / 2) (amount / 2) (amount / 2))%R /\
+  (Aabb.AABB_Contains b q = true -> Aabb.AABB_Contains (Aabb.AABB_Expand b amount) q = true).
+Proof. exact AlgebraMoreProofs.expand_contains. Qed.
+Print Assumptions expand_contains.
+
+Theorem size_volume : forall b : Aabb.AABB R,
+  Aabb.AABB_Size b = v3_sub (Aabb.AABB_Max b) (Aabb.AABB_Min b) /\
+  Aabb.AABB_Min b = box_lo b /\ Aabb.AABB_Max b = box_hi b /\ Aabb.AABB_Center b = Aabb.AABB_center b /\
+  Aabb.AABB_Volume b = (v3x (Aabb.AABB_Size b) * v3y (Aabb.AABB_Size b) * v3z (Aabb.AABB_Size b))%R.
+Proof. exact AlgebraMoreProofs.size_volume. Qed.
+Print Assumptions size_volume.
+
+(* NewAABBFromPoints (hand-written model box_from_points of the Go loop, ending in the translated NewAABB; tied to the
+   code by the correspondence check): every point is in the box, and every face of the box touches a point *)
+Theorem box_from_points_contains : forall (p0 : vec3 R) (pts : list (vec3 R)),
+  let b := box_from_points p0 pts in
+  (forall p, In p (p0 :: pts) -> Aabb.AABB_Contains b p = true) /\
+  (exists p, In p (p0 :: pts) /\ v3x p = v3x (box_lo b)) /\ (exists p, In p (p0 :: pts) /\ v3x p = v3x (box_hi b)) /\
+  (exists p, In p (p0 :: pts) /\ v3y p = v3y (box_lo b)) /\ (exists p, In p (p0 :: pts) /\ v3y p = v3y (box_hi b)) /\
+  (exists p, In p (p0 :: pts) /\ v3z p = v3z (box_lo b)) /\ (exists p, In p (p0 :: pts) /\ v3z p = v3z (box_hi b)).
+Proof. exact AlgebraMoreProofs.box_from_points_contains. Qed.
+Print Assumptions box_from_points_contains.
+
 (* ======================================================================== non-vacuity *)
 (* the algebraic hypotheses are satisfiable: R is a field carrier, Z a ring carrier (axiom-free);
    the identity matrix has a non-zero determinant; x, y are unit vectors in the generic RotationTo branch
@@ -275,3 +427,17 @@ Proof.
   - unfold v3_neg. vec_unfold. carrier_R. repeat split; lra.
 Qed.
 Print Assumptions Z_ring_carrier.
+
+(* round 4 hypotheses are satisfiable: the unit box is a non-negative box containing the origin; the identity matrix is
+   affine with non-zero determinant; the identity quaternion has positive norm *)
+Example c17_nonvacuous_round4 :
+  nonneg_box (Aabb.NewAABB (F := R) v3_zero v3_one) /\
+  Aabb.AABB_Contains (Aabb.NewAABB (F := R) v3_zero v3_one) v3_zero = true /\
+  affine (F := R) Mat.Identity /\ (0 < qnorm2 (F := R) Quat.Identity)%R.
+Proof.
+  split; [|split; [|split]].
+  - unfold nonneg_box. gen_full. carrier_R. lra.
+  - apply AlgebraAabbProofs.contains_iff. unfold in_box. gen_full. carrier_R. lra.
+  - unfold affine. gen_full. carrier_R. repeat split; reflexivity.
+  - gen_full. carrier_R. lra.
+Qed.
